@@ -13,8 +13,9 @@ CHECKS = {}
 
 CHECKS["C01"] = dict(
     category="proof",
-    text=("C-level hazards (null dereference of a typed accessor, signed overflow, out-of-range double->integer cast, foreign "
-          "exception, out-of-bounds access, divergence) are OUTCOMES of the Lean model, not things it cannot do. Theorems "
+    text=("C-level hazards are OUTCOMES of the Lean model, not things it cannot do (producible today: null dereference of a typed "
+          "accessor, signed overflow, out-of-range double->integer cast, out-of-bounds access; the constructors for division overflow, "
+          "shift range, foreign exception and divergence are dead since the repairs in /repo). Theorems "
           "(BlocV.Proofs.C01, 24): evalUn_no_hazard / evalBin_no_hazard (every operator, EVERY pair of values, both aliasing flags), "
           "pure_no_hazard, evalBuiltin_no_hazard (all 53 modelled built-ins, all argument lists), int_of_decimal_no_hazard; round 3 — "
           "the WHOLE interpreter model by mutual induction over its eight functions (Hoare-style predicate NH, state invariant WfSt: "
@@ -31,7 +32,7 @@ CHECKS["C01"] = dict(
           "self, parse-time-eval (expressions the PARSER evaluates: include / import paths, trusted and untrusted), fe (the mutated "
           "texts also through the model front end: a model hazard is a violation, outcome classes must agree; ~11k texts), lock (22 "
           "forall bodies, one unit and statement by statement). ~153k cases."),
-    design_ref="DESIGN.md §6 C01, §11, §12, §13, notes/NOTES-p0102.md, notes/NOTES-C10.md, notes/NOTES-C01X.md, notes/NOTES-C01X2.md",
+    design_ref="DESIGN.md §6 C01, §11, §12, §13, notes/NOTES-p0102.md, notes/NOTES-C10.md, notes/NOTES-C01X.md, notes/NOTES-C01X2.md, notes/AUDIT-session3.md",
     note=(TRUST + "; sanitizers as the oracle for undefined behaviour. The whole-program theorems are about the MODEL: its tie to "
           "the C++ is the differential run (for built-ins and members the exhaustive sanitizer run decides, every crash either a "
           "listed finding — none open under C01; the use-after-free through a held element reference is recorded under C05 — or a "
@@ -39,7 +40,7 @@ CHECKS["C01"] = dict(
           "theorem); the front end leaves out some semantic checks of the C++ parser (function existence / arity, member argument "
           "types): the model then runs texts the library rejects, counted in the evidence; the lock is tested after the compile pass, "
           "so the reported code of a doubly wrong text may differ. Repaired this round: run-time errors of include / import path "
-          "expressions escaping the parser (8b0461e, c78eeea). Stack/heap exhaustion is outside the property's domain."),
+          "expressions escaping the parser (8b0461e, c78eeea). Stack/heap exhaustion is outside the property's domain. The text theorems constrain the `ran` answer of runText (a rejection is a parse-error code and says nothing about the library beyond the fe family's comparison); the parser model no longer produces a foreign-exception outcome (item numbers >= 2^32 follow repair 7b31e38 since the audit)."),
     technique="Lean 4 no-hazard theorems over a hand model (operators, 53 built-ins, the whole interpreter by mutual induction, whole source texts through the model front end) + exhaustive construct x operand-class sanitizer run + token-level text mutation + session histories")
 
 CHECKS["C02"] = dict(
@@ -53,24 +54,28 @@ CHECKS["C02"] = dict(
           "tables for all types / values: typeBin/typeUn/acceptBin/acceptUn_eq_source, value_case_labels_eq_model_cells, "
           "evalBin_typeerror_iff_not_in_source_table (+ lazy, unary, ordering variants), relational_null_first, "
           "memberReceiver/Lock/Args_eq_source. Also new: the RUN-TIME safety flag as a machine over loop events "
-          "(safety_restored_after_loop, dollar_constraint_survives_loops, safety_after_unit) and the exact region of the operator "
-          "findings (kf_op_region_eq_gap, static_eq_runtime_outside_kf_region). With the earlier bin_type_sound(_static_partial), "
-          "expr_type_sound_partial, safety_preserves_major(_partial), stepwise_eq_batch_partial, src_roundtrip_* : 55 theorems. Tie: "
-          "static vs run-time type node by node (Expression::type() is now compared with the model; a mismatch is tolerated only "
-          "inside the proved region); gen-binop / gen-unop / gen-member / gen-member-arg (~14.7k: library vs regenerated table vs "
+          "(safety_restored_after_loop, dollar_constraint_survives_loops, safety_after_unit) and decidable regions for the recorded "
+          "findings: operators (kf_op_region_eq_gap, static_eq_runtime_outside_kf_region) and built-ins (KF.c02BuiltinGap; "
+          "builtin_static_eq_runtime_outside_kf_region for the 16 modelled ones). With the earlier bin_type_sound(_static_partial), "
+          "expr_type_sound_partial, safety_preserves_major(_partial), stepwise_eq_batch_partial, src_roundtrip_* : 57 theorems. Tie: "
+          "static vs run-time type node by node (Expression::type() is compared with the model; a mismatch of an operator or a "
+          "built-in is tolerated only inside the region the driver names); gen-binop / gen-unop / gen-member / gen-member-arg (~14.7k: library vs regenerated table vs "
           "hand model; when a C02G theorem stops checking the report names it and an exhaustive operator x operand-class matrix "
           "searches the failing input); safety-loops (867: `$` variables and iterators x loop shapes x exit routes x later units x "
           "three paths; flags of every symbol compared after every unit); source texts run by model and library (fe, fe-mut, "
           "fe-tables, fe-safety, fe-iter, fe-forall, fe-store, fe-dead, fe-hand); one unit vs statement-at-a-time. ~51k cases."),
-    design_ref="DESIGN.md §6 C02, §11, §12, §13, notes/NOTES-p0102.md, notes/NOTES-C02FE.md, notes/NOTES-GENOPS.md, notes/NOTES-C02R3.md",
+    design_ref="DESIGN.md §6 C02, §11, §12, §13, notes/NOTES-p0102.md, notes/NOTES-C02FE.md, notes/NOTES-GENOPS.md, notes/NOTES-C02R3.md, notes/NOTES-C02R4.md, notes/AUDIT-session3.md",
     note=(TRUST + ", extract/sigs.py, extract/optypes.py (its reading of the source is tied to the compiled code by the gen-* "
           "families; a semantically neutral rewrite of the source can break the tie without a failing input — it did once, on our "
           "own repair 565b1e8). Still hand-transcribed: typeChecking / assertTypeUniform, the collection branch of member arguments, "
           "set@, complex. The flag machine is driven by event traces the generator knows by construction, not derived from the "
           "interpreter model's own run. The full statement is FALSE on this tree: 20 recorded findings by operator / built-in cell "
-          "(the 5 operator ones with a decidable region, the 15 built-in ones per built-in), C02.safety_table_major_changes, "
-          "C02.stepwise_dead_branch_typed_from_value. expr_type_sound_partial stops at operators; the execution half of stepwise = "
-          "batch is not proved; the front end has no symbol table of its own and answers `unsupported` for some constructs."),
+          "(each with a decidable region: exact by theorem for the operators, for the built-ins by theorem on the 16 modelled ones and by "
+          "source reading + families for the ten math ones), C02.safety_table_major_changes, "
+          "C02.stepwise_dead_branch_typed_from_value. Sentence 2 of the property (one unit = statement by statement) and the run-time "
+          "half of sentence 3 are decided by the differential families (every program both ways), NOT by a theorem: "
+          "stepwise_eq_batch_partial is extensionality of the typing function and mentions neither runner; expr_type_sound_partial "
+          "stops at operators and assumes StoreOk, which is not shown preserved by execution; the front end has no symbol table of its own and answers `unsupported` for some constructs."),
     technique="generated typing and operator tables (translator tie) + Lean 4 proof over a hand model (hand rules = generated tables; type soundness with exact gap regions; flag machine) + source-text front end run against the library + exhaustive static/dynamic type comparison")
 
 CHECKS["C03"] = dict(
@@ -103,42 +108,45 @@ CHECKS["C04"] = dict(
           "evaluated 5x inside it, the function called three times: recycled call contexts) and `litnull` (the constants null, \"\", "
           "raw(), str(), bool(), int() as receiver of every member method / argument of value-returning built-ins, the same node "
           "evaluated three times in a loop: equal results, `null` still null). ~16k cases."),
-    design_ref="DESIGN.md §6 C04, §11, §12",
+    design_ref="DESIGN.md §6 C04, §11, §12, notes/AUDIT-session3.md",
     note=(TRUST + "; model-to-code correspondence is tested (complete over the stated finite product); the "
           "storage-level half (constant cells are never overwritten) is C05's frame theorem, here observed through dumps; the "
           "`litnull` family is implementation-only (equal results on re-evaluation): it raised the first alarm for the in-place "
-          "member writing through a handed-through operand (876bec0) and replays the witness of a40085e on every run."),
+          "member writing through a handed-through operand (876bec0) and replays the witness of a40085e on every run. null_literal_stable is a value-level statement (a literal carries its value): that the constant CELL is never overwritten is C05's theorem for operators and the litnull family's observation beyond them."),
     technique="Lean 4 proof over a hand model (finite case split lifted to all values) + complete provenance enumeration, repeated evaluation")
 
 CHECKS["C05"] = dict(
     category="proof",
-    text=("Two Lean 4 storage-level models. Model/Store.lean (cells with the LVALUE flag, Pool::keep, LVAL1/LVAL2, which operand each "
-          "operator returns or overwrites, storeVariable): eval_frame, eval_refines, eval_pool_discipline, eval_after / "
-          "eval_twice_equal, assign_copies, assign_independent. Model/StoreX.lean: locations (root, path) into containers, at / @N "
+    text=("Two Lean 4 storage-level models. Model/Store.lean, the round-1 model of operator expressions only (cells with the LVALUE "
+          "flag, Pool::keep, LVAL1/LVAL2, storeVariable): eval_frame, eval_refines, eval_pool_discipline, eval_twice_equal, "
+          "assign_copies, assign_independent — the driver no longer executes it. Model/StoreX.lean, the EXECUTED one: locations (root, path) into containers, at / @N "
           "returning the element itself, in-place members with MemberExpression::receiver() / isStorage, tab / tup, assignment, user "
-          "calls, a write log; round 3: built-in calls (XExpr.bi) with a placement table for the 17 built-ins of arity >= 2 (result "
-          "swapped into a temporary argument cell LVAL2 / LVAL1, handed through, or freshly allocated — read off each value()). "
-          "Theorems (BlocV.Proofs.C05, 42): evalX_frame (under the flag invariant every variable slot / constant node NOT in the "
+          "calls, a write log; round 3: built-in calls (XExpr.bi) with a placement table for the 17 built-ins of arity >= 2 (LVAL2 / "
+          "LVAL1 / hand-through / fresh, read off each value()). "
+          "Theorems (BlocV.Proofs.C05, 45): evalX_frame (under the flag invariant every variable slot / constant node NOT in the "
           "log is untouched as a whole cell; ALL expressions incl. built-in calls), flagInvX_preserved, later_ops_leave_others, "
           "assign_var_copies, storage_root, inplace_only_through_storage, const_receiver_cloned, passthrough_cloned; static "
           "footprint: evalX_logs (dynamic log within fpE), evalX_frame_static, storage_not_cst, recv_root_in; NEW "
           "reuse_only_temporaries (every placement combinator in use, every list of argument cells: variables and constants are "
-          "identical afterwards, nothing logged — false for a seeded merged combinator), builtin_call_frame; dangling_witness "
-          "(negative). Tie: node dumps x3 evaluations; driver c05x per step (outcome, values, flags); families inplace, "
-          "element_receiver, constant_receiver, element_read, construct, alias_sequence, dangling, arg_forms (892), "
-          "iterator_assign_then_read, builtin_passthrough, and builtin_arg_sources (1058: EVERY built-in with >= 2 argument slots — "
+          "identical afterwards, nothing logged — false for a seeded merged combinator), operator_reuse_only_temporaries (the same for "
+          "the operators on element cells), builtin_call_frame, evalX_ppool, placement_flag_sound (the returned cell is flagged IFF "
+          "its root is a variable slot or constant node); dangling_witness (negative). Tie: node dumps x3 evaluations; driver c05x per step (outcome, values, flags); families inplace, "
+          "element / constant receivers and reads, construct, alias_sequence, dangling, arg_forms (892), "
+          "iterator_assign_then_read, builtin_passthrough, builtin_arg_sources (1058: EVERY built-in with >= 2 argument slots — "
           "names read from the generated signature table — x every pattern of argument sources {variable, element, item, "
           "constant, operator temporary, call temporary}; the statement parsed once and run 3x so that a clobbered constant node "
-          "is re-read; model comparison + the property on the library alone: only the target may change); random alias programs "
-          "vs Model/Interp. ~24k cases."),
-    design_ref="DESIGN.md §6 C05, §11, §12, §13, notes/NOTES-p0305.md, notes/NOTES-C05.md, notes/NOTES-SEEDS3.md",
+          "is re-read; model comparison + the property on the library alone), operator_arg_sources (1259: all operators x type "
+          "pairs x 19 source patterns, both orders), result_flag (3502 expressions: flag of the RESULT cell via probe op exprf); "
+          "random alias programs vs Model/Interp. ~25.6k cases."),
+    design_ref="DESIGN.md §6 C05, §11, §12, §13, notes/NOTES-p0305.md, notes/NOTES-C05.md, notes/NOTES-SEEDS3.md, notes/NOTES-C05R4.md, notes/AUDIT-session3.md",
     note=(TRUST + "; the placement tables (operators, members, built-ins) are transcribed by hand and their observable "
-          "consequences tested; hand-through vs LVAL1 differ only in the flag of the RESULT cell, which no dump shows; the model "
+          "consequences tested (hand-through vs LVAL1, which differ only in the flag of the RESULT cell, through result_flag); the model "
           "evaluates every argument before the built-in looks at any (the C++ skips later arguments in some null branches: "
           "unobservable for effect-free arguments, which is what is generated); input / read write into their first argument by "
           "design and are outside. Refinement to the value level and re-evaluation equality are proved for operator expressions "
-          "only; operators with (constant | element, temporary) at storage level are hand-picked cases, not a matrix; forall is "
-          "not in the storage model. Open finding C05.dangling_element_reference."),
+          "only — and those theorems (eval_refines, eval_twice_equal, …) are about Model/Store.lean, which the driver no longer runs; "
+          "StoreX subsumes it for frames, not for the refinement; exprf re-parses, so it ties the flag, not re-evaluation; forall is "
+          "not in the storage model; the literal-null clause at storage level beyond operators is decided by the families. Open finding C05.dangling_element_reference."),
     technique="Lean 4 proof (frame, flag-invariant, footprint and placement theorems over a storage-level hand model; one induction on fuel via a preservation predicate closed under bind) + dump-based differential correspondence per step")
 
 CHECKS["C06"] = dict(
@@ -159,12 +167,12 @@ CHECKS["C06"] = dict(
           "each index; nested), bounded-exhaustive nestings x exits, for-assign (2067: step x direction x range x assigned value x "
           "position), lock (313 programs, perr 32 exactly when lockProgram refuses), random structured programs; printed "
           "sequences, variables, control/exec depth and constraint flags compared. ~5.7k programs."),
-    design_ref="DESIGN.md §6 C06, §11, §12, notes/NOTES-p0608.md, notes/NOTES-INT.md",
+    design_ref="DESIGN.md §6 C06, §11, §12, notes/NOTES-p0608.md, notes/NOTES-INT.md, notes/AUDIT-session3.md",
     note=(TRUST + "; the interpreter model evaluates over values (C05 links it to the storage discipline); correspondence tested. "
           "`every iteration ends normally or with continue` stays a run-local hypothesis of the visiting theorems; forall over a "
           "TEMPORARY is covered by the correspondence, its statement-level theorem is for a variable source; element receivers "
           "(ts.at(0).concat(x)) are not in this model (C05's StoreX has them) and not generated. The one finding (a body nulling the "
-          "control variable) was repaired in round 1."),
+          "control variable) was repaired in round 1. The `ctl unchanged` conjunct of statement_output_only_grows is vacuous for program runs (exec never writes St.ctl: for / while are recursion in the model); break / continue scoping in nested loops beyond the frame theorems is decided by the nesting families."),
     technique="Lean 4 proof over an interpreter hand model (loop theorems vs Spec.forRange / forallOrder, control-stack balance and table lock by mutual inductions) + program-level differential correspondence")
 
 CHECKS["C07"] = dict(
@@ -186,13 +194,13 @@ CHECKS["C07"] = dict(
           "nestings x failing operation x handler sets + probe program; errrec (432: failing op x second failing op x clause names x "
           "8 shapes, each followed by a program reading the record); interactive (622 sessions through the probe op istep: outcomes, "
           "output, variables, control depth); source-shape tie on the cli loop. ~3.1k programs."),
-    design_ref="DESIGN.md §6 C07, §11, §12, §13, notes/NOTES-p0608.md, notes/NOTES-INT.md",
+    design_ref="DESIGN.md §6 C07, §11, §12, §13, notes/NOTES-p0608.md, notes/NOTES-INT.md, notes/AUDIT-session3.md",
     note=(TRUST + "; exec level and the symbol constraint flags have no counterpart in the value-level model: their state after an "
           "error is observed (dump after every run + probe program), not proved; the probe op istep is a hand copy of the cli loop, "
           "tied by a source-shape check; a top-level forall / return under the interactive runner is unmodelled; C++ unwinding "
           "assumed to run the transcribed catch blocks; exception names longer than 255 bytes not tied. The four findings recorded "
           "by this check in round 2 (record cleared by an inner handler, stale after a failed inner clause, kept in a recycled call "
-          "context, control entry left by the interactive runner) are repaired; their theorems are now positive."),
+          "context, control entry left by the interactive runner) are repaired; their theorems are now positive. St.ctl is written only by the interactive runner's own step: program_run_keeps_control_entries, stepTop_no_residue and interactive_runner_no_residue say nothing about for / while entries (recursion in the model) — their residue after an error is OBSERVED through the hook (control depth after every run), not proved."),
     technique="Lean 4 proof over an interpreter hand model (relational frame inductions) + generated-nesting, error-record and interactive-session differential correspondence")
 
 CHECKS["C08"] = dict(
@@ -214,12 +222,12 @@ CHECKS["C08"] = dict(
           "depth-history, receiver-forms; round 3: reclimit-after-cache (168 two-program cases: 12 histories that fill or "
           "exhaust the pools of recycled call contexts x 7 wrapper depths x direct / mutual; model comparison AND a model-free "
           "oracle: exactly 255 - k chain lines, the same for every history). ~1.9k programs."),
-    design_ref="DESIGN.md §6 C08, §11, §12, §13, notes/NOTES-p0608.md, notes/NOTES-INT.md, notes/NOTES-SEEDS3.md",
+    design_ref="DESIGN.md §6 C08, §11, §12, §13, notes/NOTES-p0608.md, notes/NOTES-INT.md, notes/NOTES-SEEDS3.md, notes/AUDIT-session3.md",
     note=(TRUST + "; the model creates a fresh callee state per call and has no pool of contexts, the C++ recycles contexts and "
           "resets them (b7b8574, e310d98): their equivalence — incl. the depth test being independent of the pool — is exactly what "
           "the history families test. random()/stdin are documented global inputs and not modelled. A program that declares one "
           "signature twice with a call in between resolves the call differently from the model's collectFuncs (C14's World models "
-          "the re-installation; the generators declare each signature once)."),
+          "the re-installation; the generators declare each signature once). call_independent_of_history holds by construction (the model keeps no per-function state a history could change): it states the model's shape, the history families test the library against it."),
     technique="Lean 4 proof over an interpreter hand model + call-history differential correspondence")
 
 CHECKS["C09"] = dict(
@@ -268,12 +276,12 @@ CHECKS["C10"] = dict(
           "dumped after the call): short strings x position lattice; num.exhaustive2/3 (every string <= 3 over a 10-character "
           "alphabet, <= 2 over 29), num.grammar, num.boundary (exact midpoints between doubles, subnormal / overflow thresholds), "
           "numstr (num(str(d)) on the double lattice), math1, math2, round2, clamp, conv.types, int.decimal."),
-    design_ref="DESIGN.md §6 C10, §11, §12, notes/NOTES-p10.md, notes/NOTES-r10.md, notes/NOTES-C10.md",
+    design_ref="DESIGN.md §6 C10, §11, §12, notes/NOTES-p10.md, notes/NOTES-r10.md, notes/NOTES-C10.md, notes/AUDIT-session3.md",
     note=(TRUST + "; correspondence is tested (exhaustive over the stated alphabets/lattices, sampled beyond). IEEE functions "
           "(libm, fmod, pow) are Lean's Float = the same libm, executed not proved; the correct-rounding theorems of the stod and "
           "%.16g models are missing, so num(str(d)) = d is proved at closed instances and tested on the lattice. Open finding "
           "C10.num.subnormal.erange (num(str(d)) raises OUT_OF_RANGE for subnormals, DBL_MIN, DBL_MAX). `Arguments unchanged` is "
-          "vacuous at value level and checked by the dumps. Not modelled: random, read*, input, getsys/getenv, imaginary operands."),
+          "vacuous at value level and checked by the dumps. Not modelled: random, read*, input, getsys/getenv, imaginary operands. The no-hazard and returns-a-sublist statements are totality statements about list functions (drop / take cannot read outside): memory safety of the C++ is the sanitizers' verdict in the exhaustive run; values of tokenize / upper / lower / trim / replace beyond the stated contracts are compared, not proved."),
     technique="Lean 4 proof over a hand model (incl. exact strtod / %.16g arithmetic) + differential correspondence (exhaustive short strings x lattice)")
 
 CHECKS["C11"] = dict(
@@ -297,7 +305,7 @@ CHECKS["C11"] = dict(
           "text, three execution paths, sess; loop heads of the trace = those of the text; the region of the repaired finding is "
           "still generated (~750-1650 single-text cases per path, ~66 histories); a valid text that crashes while it RUNS (call "
           "before redefinition: W.callbefore) is a violation. ~33.5k cases; no known finding."),
-    design_ref="DESIGN.md §6 C11, §11, §12, §13, notes/NOTES-C11.md, notes/NOTES-C11FIX.md",
+    design_ref="DESIGN.md §6 C11, §11, §12, §13, notes/NOTES-C11.md, notes/NOTES-C11FIX.md, notes/AUDIT-session3.md",
     note=(TRUST + "; the event vocabulary comes from reading the five parse_clause functions, tied by the trace correspondence; "
           "`aligned` is a hypothesis kept by every text; the exclusion `T does not mention R's left-overs` is on statement heads in "
           "the model, expression reads are excluded by a token-level test in the check; removing SEVERAL rejected texts at once is "
@@ -305,7 +313,7 @@ CHECKS["C11"] = dict(
           "probe programs under ASan (the clearCache of parsingRevert matters only for a body CALLED at parse time: not generated); "
           "the journal does not nest (no caller parses during a parse on the same root context today); include is not generated by "
           "these families (C01's parse-time-eval and C13's path families read through it); function identity = Functor address "
-          "within a case."),
+          "within a case. The run-time half of the session theorems (reject_then_run_eq_run, session_*) is vacuous — Session.submit keeps the run-time state on a reject by definition and the driver re-implements the skip: the parse-context theorems carry the property; variable VALUES after a reject are compared by the families only; reject_restores_functions_partial is full strength under its old name."),
     technique="Lean 4 proof over a hand model (event machine with journal, lift simulation over histories) + trace-refinement correspondence (model-explained snapshots) + differential twin runs",
 )
 
@@ -320,17 +328,17 @@ CHECKS["C12"] = dict(
           "nested to any depth), block_roundtrip, program_roundtrip; program_roundtrip_bytes / unparse_fixpoint_program_bytes "
           "(parseText (unparseProgram p) = normP p on BYTES given the one decidable hypothesis hscan: the saved bytes scan to the "
           "token list); parse_fuel_suffices; unparse_fixpoint_program, behaviour_preserved_program (ALL programs: unparse o normP = "
-          "unparse, translate o normP = translate); decimal_roundtrip_iff (a decimal leaf round-trips iff std::stod re-reads its "
+          "unparse; translate o normP = translate on the fragment the translation toProgram covers, `none = none` elsewhere); decimal_roundtrip_iff (a decimal leaf round-trips iff std::stod re-reads its "
           "%.16g text); literal and integer round trips; stmt_do_roundtrip. The full property is FALSE on this tree (%.16g not "
           "injective, wrapped integer literals, fused print items: proved negations, recorded findings). Tie: Executable::unparse "
           "vs the model byte for byte on generated programs over the full grammar (families forms: members, items, set@, forall, "
           "typed declarations…; rdecb: 32 boundary decimal literals; up to 14 nested parentheses), re-parse in a twin, re-run, "
           "second unparse; per case the driver evaluates ptoks (= hscan), prt, wfp, pfix, pfuel, isep. ~3k programs."),
-    design_ref="DESIGN.md §6 C12, §11, §12, notes/NOTES-C12.md, notes/NOTES-r12.md",
+    design_ref="DESIGN.md §6 C12, §11, §12, notes/NOTES-C12.md, notes/NOTES-r12.md, notes/AUDIT-session3.md",
     note=(TRUST + ". NOT proved: that the saved bytes scan to the token lists the theorems speak about (hscan is evaluated through "
           "the C13 lexer model on every case; Lemmas/Scan.lean proves the identifier / punctuation lexemes only); no closed-form "
           "class of decimals satisfying decimal_roundtrip_iff. Type/symbol checks of the C++ parser are outside the model (domain = "
-          "accepted programs). Open: C12.decimal_16_digits, C12.wrapped_integer_literal, C12.print_items_fuse."),
+          "accepted programs). Open: C12.decimal_16_digits, C12.wrapped_integer_literal, C12.print_items_fuse. Behaviour preservation rests on the round-trip theorems (same tree => same behaviour) + the re-run of every saved text: behaviour_preserved* are corollaries on the fragment toProgram covers (not members, items, set@, forall, put, trace, typed declarations); the `save` command is not exercised."),
     technique="Lean 4 proof over a hand model (recursive-descent parser inverts unparse: continuation-form induction over precedence levels, member chains, argument lists and blocks; structural fixpoint/behaviour theorems) + unparse/reparse/rerun correspondence with per-case evaluation of the theorem statements")
 
 CHECKS["C13"] = dict(
@@ -355,14 +363,14 @@ CHECKS["C13"] = dict(
           "the library fed with the model's chunks); safe => library = whole-text Spec also inside the finding's region (iff "
           "evaluated on ~77k two-chunk cases per run); rule list, the three read bodies and tokenizer_buf (in tokenizer.lex AND "
           "lex._tokenizer.c) compared with the transcribed text. ~127k cases."),
-    design_ref="DESIGN.md §6 C13, §11, §12.3, §13, notes/NOTES-C13.md, notes/NOTES-C13R2.md, notes/NOTES-C13R3.md",
+    design_ref="DESIGN.md §6 C13, §11, §12.3, §13, notes/NOTES-C13.md, notes/NOTES-C13R2.md, notes/NOTES-C13R3.md, notes/AUDIT-session3.md",
     note=(TRUST + "; the flex-generated automaton (lex._tokenizer.c) is compared with the model on token streams, not "
           "translated; the region of the recorded finding is pinned to the recorded 1023-byte chunk (a generated buffer size that "
           "differs makes texts fitting 1023 bytes violations); the converse of lex_cuts_aligned for lists of cuts is not attempted; "
           "literals with escapes over chunks are covered by pop_line_aligned and the families only; bloc -e and the CLI command "
           "load use the same reader classes and are not exercised separately. Observed, not a finding of this property: the "
           "interactive readers do not drop CR. Open: C13.unaligned_chunk_splits_token, C13.nul_truncates_chunk, "
-          "C13.reader_drops_lone_cr."),
+          "C13.reader_drops_lone_cr. fragmentation_independent, lex_cuts_aligned, literal_* hold on their stated regions only (they lack a `_partial` suffix); CRLF = LF does not hold through the stdin / readline readers, which keep CR (no `_fails` theorem states it); escapes split across chunks are decided by the families."),
     technique="Lean 4 proof over a hand model (chunked lexer = whole lexer exactly on safe cuts; every reader delivers every byte) + token-stream, reader-call and execution-path correspondence")
 
 CHECKS["C14"] = dict(
@@ -385,7 +393,7 @@ CHECKS["C14"] = dict(
           "results, outputs, variables and now function table (order), flags, stop condition; families over (150 overload tables x "
           "clone trees), redef (60), hist + hist-kill (111: pending return / break / purge / free at every position), redecl, "
           "unlinked; 1250 scenarios, 5000 harness runs; thorough adds a ThreadSanitizer build, every report classified by site pair."),
-    design_ref="DESIGN.md §6 C14, §11, §12, notes/NOTES-C14.md, notes/NOTES-r14.md",
+    design_ref="DESIGN.md §6 C14, §11, §12, notes/NOTES-C14.md, notes/NOTES-r14.md, notes/AUDIT-session3.md",
     note=("Full property is FALSE on the tree: data races on Statement::_level, the process-wide error record, the RNG statics, "
           "_type_volatile — recorded findings. Thread interleavings are sampled, not enumerated. The re-installation of a function "
           "by an executed declaration is modelled in World, not in Interp.runProgram (gap recorded: stableDecls_needed; harmless for "
@@ -393,7 +401,7 @@ CHECKS["C14"] = dict(
           "and compared), that every function body in every table is linked. Runs of an executable in a context that does not "
           "continue its compile-time tables are flagged (linked=0) and not predicted (candidate finding "
           "C15.execute2_foreign_executable_unchecked). " + TRUST + "; extract/shared.py's regex listing; thrprobe; ThreadSanitizer "
-          "for unlisted races on executed paths."),
+          "for unlisted races on executed paths. interleaving_eq_sequential / steps_commute hold by construction of `apply` (an operation touches its own context and the listed shared cells by its type): they state what the MODEL is; that the library is like it is what the threaded runs test."),
     technique="Lean 4 proof over a hand model (commutation + induction on schedules over an extracted shared-cell footprint; simulation World.step <-> Interp.execList with exact fuel; prefix / no-duplicate invariants of the function table) + threaded differential testing under ASan/TSan")
 
 CHECKS["C15"] = dict(
@@ -401,7 +409,7 @@ CHECKS["C15"] = dict(
     text=("Lean 4 handle state machine of blocc/bloc_capi.h (contexts, clones, symbols, values with caller/library ownership, "
           "expressions, executables, process-wide error record, per-context epochs and generations); round 3: 1200 operator texts "
           "GENERATED in Lean from the typing model (25 binary + 5 unary spellings x 5 operand forms x type pairs, each as source and "
-          "AST with verdict, error code and position computed in the model). Proved (BlocV.Proofs.C15, 39) for ALL call sequences: "
+          "AST with verdict, error code and position computed in the model). Proved (BlocV.Proofs.C15, 44; the last five — rstore_copy_contract, rstore_move_contract, rstore_copy_ownership, cross_context_isolation_x, cross_store_copies — are about values that travel between two contexts: a pointer from bloc_ctx_load_variable stored into another context is copied, an item pointer is MOVED out of its container, as the code does) for ALL call sequences: "
           "library_pointer_stable, error_record_contract, accessor_contract, api_script_agree, context_reusable_after_error; NEW "
           "typed_rejection_iff / _prog (a generated text is rejected with TYPE_MISMATCH and NULL exactly when Typing.acceptBin / "
           "acceptUn refuses it, at the computed position), rejected_parse_contract_expr / _prog (NULL, own code, the five host "
@@ -416,7 +424,7 @@ CHECKS["C15"] = dict(
           "rejected one followed by a good parse + run in the same context): all verdicts, codes and positions of the typing model "
           "agree with the library (positions follow repair 565b1e8: a left operand ill-typed on its own is reported before the "
           "right one is parsed). ~4.9k sequences."),
-    design_ref="DESIGN.md §6 C15, §11, §12.3, §13, notes/NOTES-C15.md, notes/NOTES-r15.md, notes/NOTES-C15R3.md, notes/NOTES-C15R4.md",
+    design_ref="DESIGN.md §6 C15, §11, §12.3, §13, notes/NOTES-C15.md, notes/NOTES-r15.md, notes/NOTES-C15R3.md, notes/NOTES-C15R4.md, notes/AUDIT-session3.md",
     note=("PARTIAL. Memory reclamation is NOT modelled: 'a rejected parse leaves nothing allocated' / 'no memory remains' is "
           "LeakSanitizer's verdict on the generated texts and sequences (1760 rejected operator parses, 37 hand texts, 522 "
           "truncations, ~900 random rejected parses per run), not a theorem; leak records are attributed by allocation call site, a "
@@ -427,7 +435,7 @@ CHECKS["C15"] = dict(
           "the 17 binary productions (565b1e8), the IF condition (96b2071), RETURN at end of text (4ec8435); 1 candidate recorded by "
           "C14's index-linking model and not exercised here. The 10 accepted `matches` texts have no AST and are skipped; a value "
           "loaded from one context cannot be stored into another in the model (two-context copy/move family not built). bloc_break "
-          "from a second thread, trace and plugins are outside. " + TRUST + "."),
+          "from a second thread, trace and plugins are outside. " + TRUST + ". purged_handles_dead_in_reachable_states concludes that the MODEL answers a precondition violation for such a handle (by construction of the handle tables)."),
     technique="Lean 4 proof over a transcribed state machine (case analysis over 38 ops + invariants by induction on sequences; rejected texts generated from the typing model) "
               "+ model-based differential testing with sanitizers; leak attribution by allocation call-site signature")
 
@@ -437,7 +445,9 @@ CHECKS["C16"] = dict(
           "bit (constructors, trusted(), clone, purge, child shells / runtimes, trace, parsingBegin/End) and of the compile-time "
           "tests of constructor calls, import and include. Theorems (BlocV.Proofs.C16, 17) over ALL host histories — unban, clear, "
           "new / trust / clone / free / purge / trace-switch of any context, compile of any text accepted or rejected, run of any "
-          "executable incl. trace statements and run-time errors: object_implies_granted, untrusted_history_objects_granted, "
+          "executable incl. trace statements and run-time errors: object_implies_granted (about the context that COMPILED the "
+          "constructor: trusted, or the module granted, at compilation), untrusted_history_objects_granted (unconditional for "
+          "histories without a trusted context), "
           "ctor_compiles_iff, path_import_refused, include_refused, trusted_unrestricted, ctor_everywhere_top / _func; round 2: trusted_bit_invariant (no "
           "operation other than the trust setter on that context changes a context's bit), purge_keeps_untrusted, "
           "clone_inherits_trust_exactly, capi_history_never_trusted (what the C API can do never yields a trusted context), "
@@ -449,11 +459,11 @@ CHECKS["C16"] = dict(
           "compiled earlier, trust on/off, new context: all sequences <= 2, thorough 3, random up to 7) through the C++ classes "
           "and the C API; after EVERY event the trusted bit of EVERY live context is compared with the model and with the "
           "property's own bookkeeping (model-independent oracle). ~12k cases."),
-    design_ref="DESIGN.md §6 C16, §11, §12, notes/NOTES-C16C17.md, notes/NOTES-C1617.md",
+    design_ref="DESIGN.md §6 C16, §11, §12, notes/NOTES-C16C17.md, notes/NOTES-C1617.md, notes/AUDIT-session3.md",
     note=(TRUST + "; the verification-only plugin harness/vmod. bloc_deinit_plugins mid-session is outside the model (nodes carry "
           "module names, the C++ numeric type ids): finding C16.deinit_reassigns_type_ids, witnessed on every run. Run-time "
           "constructor failures and function arity are not modelled in this layer; import of a non-granted module by NAME is "
-          "accepted by the code (the library is loaded, no object can be made) — outside the property."),
+          "accepted by the code (the library is loaded, no object can be made) — outside the property. The guarantee is about the COMPILING context, by the property's design (a compile-time test): a host that runs an executable compiled in a trusted context inside an untrusted one (Executable::run(Context&, …) is public; it is how clones share a program) puts objects there without a grant — a host action outside the guarantee. Unconditional: histories without a trusted context = everything the C API can do (capi_history_never_trusted). Spellings are decided by the product family."),
     technique="Lean 4 proof over a hand model (inductive invariant over host-operation histories) + exhaustive / bounded-exhaustive differential enumeration with a verification-only plugin")
 
 CHECKS["C17"] = dict(
@@ -474,49 +484,53 @@ CHECKS["C17"] = dict(
           "wrong-module receiver, counter width (65535..70000 references), result-receiver (50), returned-not-taken (76, C API host "
           "that never collects the value), failure-while-building (176: tab / tup / argument list / member failing midway), deinit. "
           "~2.8k cases."),
-    design_ref="DESIGN.md §6 C17, §11, §12, notes/NOTES-C16C17.md, notes/NOTES-r15.md, notes/NOTES-C1617.md",
+    design_ref="DESIGN.md §6 C17, §11, §12, notes/NOTES-C16C17.md, notes/NOTES-r15.md, notes/NOTES-C1617.md, notes/AUDIT-session3.md",
     note=(TRUST + "; harness/vmod. ObjProg runs on the store layer with one module (the two-module layer M is tied separately by "
           "meth); set@, tuples of objects and table+table insert/concat are exercised by the model-free families only (their oracle "
           "is the property on the event log, no theorem claimed); re-import after deinit not modelled; temp-pool slot reuse is "
           "bounded, not modelled. Open: C17.moved_from_handle_null_deref (not script-reachable), "
           "C17.deinit_with_live_objects_null_call (host calls bloc_deinit_plugins while objects are referenced). Repaired: "
           "use-after-free when a clone outlives its origin, callee-context leak on a raising argument, tab(n, expr) leaking the "
-          "elements built before a later repetition raises (87d5eeb)."),
+          "elements built before a later repetition raises (87d5eeb). objprog_refines_store / objprog_lifetime conclude an existential (some sequence of store operations exists): the handle / store-level theorems (refs_eq_live_handles, destroy_at_most_once, destroy_at_zero_only, no_leak_at_quiescence_ctx) and the event-log comparison carry the property; program-level exactly-once is a correspondence result."),
     technique="Lean 4 proof over a hand model (invariant over operation sequences; simulation by induction on fuel with per-instruction lemmas) + bounded-exhaustive and random model-based testing with an instrumented plugin under AddressSanitizer")
 
 CHECKS["C18"] = dict(
     category="proof",
-    text=("All four modules by Lean 4 proof (BlocV.Proofs.C18 + C18F, 77) + differential runs on the real code. csv: csv_roundtrip, "
+    text=("All four modules by Lean 4 proof (BlocV.Proofs.C18 + C18F, 82) + differential runs on the real code. csv: csv_roundtrip, "
           "csv_linewise; the PLUGIN glue modelled: csv_plugin_ctor, csv_plugin_roundtrip, csv_plugin_next_core (for tables WITH null "
           "elements), csv_plugin_next_null_last, csv_plugin_linewise, csv_plugin_args_total — UNCONDITIONAL since repair ad063b9: no "
           "call of the method table in any state reaches a C++-level fault. utf8: decode_illformed (EVERY byte string: byte-at-a-time "
           "decoder = look-ahead RFC 3629 decoder), decode_valid_agrees, count/at/substr/insert/remove/string = list functions, "
           "utf8_methods_total / utf8_history_total (15 methods, every argument, whole histories: invariant kept, one answer per "
-          "call, never a fault — unconditional since 2b1dab4) with utf8_reserve_exact (closed form of reserve); toupper / tolower "
-          "over the real character table as a parameter: utf8_case_agrees, utf8_case_total, utf8_append_after_transform + "
-          "utf8_transform_sticky_witness (the transformation stays installed: recorded finding). file: file_refines_spec (EVERY list "
+          "call, never a fault — unconditional since 2b1dab4) with utf8_reserve_exact; all five table-driven transformations over the "
+          "real character table as a parameter: utf8_case_agrees, utf8_case_total (toupper / tolower), utf8_ctx_agrees, "
+          "utf8_ctx_total (capitalize / normalize), utf8_translit_agrees, trun_func + utf8_append_after_transform (no history "
+          "changes the installed transformation: text appended later is stored as given — positive since repair 7c5d420). file: file_refines_spec (EVERY list "
           "of stream calls = the POSIX-level spec run, outside the update-stream region), file_refines_spec_repositioned (side "
           "condition discharged from the SHAPE of the history: every switch of direction goes through a seek), "
           "file_update_roundtrip, file_readln_spec / _all, file_write_read_roundtrip + _concat, file_args_total. sqlite3: "
           "sqlite_args_total, sqlite_value_roundtrip + sqlite_roundtrip_iff, sqlite_history_refines_spec (ALL bind / execute / exec / "
           "fetch histories on a prepared INSERT, failing steps anywhere = a one-slot specification), sqlite_rows_function_of_binds, "
           "sqlite_bind_after_any_history. Tie: exhaustive small-alphabet run of the real classes (harness/modprobe.cpp, ~517k) and "
-          "~4.6k histories through the REAL .so modules (ASan+UBSan): u8.plugin_ops/_self/_reserve (under an operator new that "
+          "~4.7k histories through the REAL .so modules (ASan+UBSan): u8.plugin_ops/_self/_reserve (under an operator new that "
           "throws above a limit)/_case (whole real char table), csv.plugin/_rt/_nulllast, file.bufedge, file.modepairs (12 modes x "
           "64 op pairs, half also run by Python os.*), sql.stepfail, sql.history + every sqlite line against the spec; oracles: "
           "Python reading file and database, a Python CSV writer, the Lean stream spec answering every file call."),
-    design_ref="DESIGN.md §6 C18, §11, §12, §13, notes/NOTES-C18.md, notes/NOTES-C18F.md, notes/NOTES-r18.md, notes/NOTES-C18R3.md",
+    design_ref="DESIGN.md §6 C18, §11, §12, §13, notes/NOTES-C18.md, notes/NOTES-C18F.md, notes/NOTES-r18.md, notes/NOTES-C18R3.md, notes/NOTES-C18R4.md, notes/AUDIT-session3.md",
     note=(TRUST + "; glibc stdio and SQLite (their behaviour is what the models' fread/fwrite/fseek and storage classes say; tested, "
           "not proved); harness/blocprobe + modprobe + newlimit.cpp (AddressSanitizer's operator new never throws: the bad_alloc "
           "branch of reserve is reached through a preloaded operator new; recorded as an assumption) + vlib comparators. Assumed: "
           "one handle per file, regular files, writes < 2^32 bytes; fopen modes with the glibc flag `m` or `,ccs=` outside the "
           "model; SQL fixed to CREATE TABLE t(a) | t(a NOT NULL) / INSERT / SELECT shapes, the history theorem is for a prepared "
-          "INSERT; `Disciplined` is conservative (only seekset inside the file counts as positioning). Not modelled / not proved: utf8 "
-          "normalize / capitalize / translit, csv serializers for tuples / numeric tables, stat/dir/errmsg, dirname/basename; the "
-          "strict RFC decoder is related to the encoder by test only. Open: C18.utf8_transform_sticky (new), utf8 NUL dropped, four "
-          "sqlite storage-class cells, file update stream without reposition (now also: a read on a write-only stream with output "
-          "pending). Repaired and closed this round: C18.utf8_reserve_unchecked, C18.csv_next_null_last_element (regression "
-          "witnesses; reverting either commit makes the check exit 1)."),
+          "INSERT; `Disciplined` is conservative (only seekset inside the file counts as positioning). Not modelled / not proved: "
+          "csv serializers for tuples / numeric tables, stat/dir/errmsg, dirname/basename; the "
+          "strict RFC decoder is related to the encoder by test only. file_args_total, sqlite_args_total and five of the six conjuncts "
+          "of utf8_args_total speak about functions that cannot produce the hazard: they are TOTALITY statements (value or BLOC "
+          "error); memory safety of those paths is the sanitizers' verdict; the independent-reader clause is decided by the "
+          "families. 6 findings open: utf8 NUL dropped, four sqlite storage-class cells, file update stream without reposition "
+          "(also: a read on a write-only stream with output pending). Repaired and closed this round: C18.utf8_reserve_unchecked, "
+          "C18.csv_next_null_last_element, C18.utf8_transform_sticky (found and repaired, 7c5d420); regression witnesses, reverting "
+          "any of the commits makes the check exit 1."),
     technique="Lean 4 proof over hand models (round trip, sequence-level refinement of POSIX and one-slot SQL specifications by induction over call lists, unconditional totality of the method tables, decoder equivalence by strong induction) + exhaustive / randomised differential correspondence on the real classes and the real plugin .so files with independent readers")
 
 CHECKS["C19"] = dict(
@@ -539,7 +553,7 @@ CHECKS["C19"] = dict(
           "bytes through file, stdin, CRLF), a reader harness compiled from apps/read_file.cpp of the tree under test (651 cases, "
           "chunk by chunk, heap buffer of exactly max bytes), front-end-instance pass (432 runs also judged against the text-driven "
           "model). ~2.6k evaluations."),
-    design_ref="DESIGN.md §6 C19, §11, §12, notes/NOTES-C19.md",
+    design_ref="DESIGN.md §6 C19, §11, §12, notes/NOTES-C19.md, notes/AUDIT-session3.md",
     note=(TRUST + "; the subprocess plumbing of vlib/props/c19.py. The parser is a parameter of the model except in the fe_* "
           "theorems, which are conditional on Model/Parse + Elab's verdict (no symbol / type checks there: about 6 texts per run that "
           "the C++ rejects with a positioned compile error are exempted in that pass and listed in the evidence; the main pass still "
@@ -547,7 +561,7 @@ CHECKS["C19"] = dict(
           "deferred output of a failing print in -i. Not modelled: interactive commands other than exit (load/run/list…), "
           "--debug=all trace, colour, a tty. Not proved: chunk-by-chunk equality of the CLI reader with C13's lineReader (same "
           "concatenation is). Open: returned table/bytes not printed, interactive mode continues after return, interactive "
-          "function redefinition."),
+          "function redefinition. exit_zero_iff_success compares finish ∘ library with library (true by construction of the transcription: it states the model's shape); the interactive PARSER is decided by the transcript families."),
     technique="Lean 4 proof over a hand model of the decision logic and the reader (structural + fuel induction, mutual induction over the interpreter functions) + process-level three-way differential test, argv enumeration, reader harness")
 
 NOT_YET = {}
